@@ -63,7 +63,9 @@ def render(c, key, seed_shape):
             else:
                 rs = ref[1]
             t = LET[p["tr"]]
-            pieces.append("{" + rs + (":" + t if t else "") + "}")
+            # spelling: a fifth of the cases write every placeholder with trailing whitespace (`{x }`, `{x:p }`), which
+            # std::fmt ignores
+            pieces.append("{" + rs + (":" + t if t else "") + (" " if (seed_shape // 27) % 5 == 0 else "") + "}")
     lit = "|".join(pieces)
     user_aliases = set()
     dargs, rargs = [], []
@@ -202,7 +204,7 @@ pub fn run() {{ let got = format!("{{}}", E::{nm}); let r = String::from({vlib.r
 
 def run(chk, tier, seed, replay):
     chk.assumptions += ["every field is a `&'static i32` (implements all nine traits, so any placeholder trait can refer to any field)",
-                        "shape (tuple struct / named struct / enum variant) and derived trait rotate over the cases by hash",
+                        "shape (tuple struct / named struct / enum variant), derived trait and placeholder spelling (a fifth with trailing whitespace) rotate over the cases by hash",
                         "rename_all: 8 casings x 5 unambiguous names, two of them raw identifiers (fixed expectation table)"]
     r = vlib.run_tlc("MC_FmtText", f"MC_FmtText_{tier}", workers=8, timeout=1800, xmx="6g")
     chk.add_tlc(r, "literals x argument lists")
@@ -220,7 +222,7 @@ def run(chk, tier, seed, replay):
         has_ptr = any(p["k"] == "ph" and p["tr"] == "Pointer" for p in c["lit"])
         if not replay and share > 1 and not c["transparent"] and vlib.seeded_pick(k, seed, share if not has_ptr else max(1, share // 4)) != 0:
             continue
-        m, d = render(c, k, vlib.seeded_pick(k, 7, 27))
+        m, d = render(c, k, vlib.seeded_pick(k, 7, 27 * 5))
         mods.append((k, m))
         decls[k] = d
     cap = 12000 if tier == "quick" else 24000     # rustc's memory grows with the crate: keep the compiled set bounded
